@@ -61,6 +61,7 @@ type c06Doc struct {
 	Layout  string    `json:"layout"`
 	Rules   []c06Rule `json:"rules"`
 	CRLF    bool      `json:"crlf,omitempty"`
+	Nested2 bool      `json:"nested2,omitempty"` // embedded document inside an embedded document
 }
 
 type c06ScalarAnchor struct {
@@ -1137,35 +1138,41 @@ func c06GenDoc(r *rand.Rand) c06Doc {
 		inner.w("  rules:")
 		inner.nl()
 		rules := inner.emitRuleList(pick(r, []int{2, 4}), 1+r.Intn(3))
-		p.w("apiVersion: v1")
-		p.nl()
-		p.w("kind: ConfigMap")
-		p.nl()
-		p.w("data:")
-		p.nl()
-		p.w("  rules.yml: |")
-		p.nl()
-		off := p.lineNo() - 1
-		ind := pick(r, []int{4, 4, 6, 3})
-		for _, l := range inner.lines {
-			if l == "" {
-				p.nl()
-				continue
+		// wrap the document into a literal block scalar, once or (stratum: doubly nested documents, each level with its
+		// own indentation, so that column offsets must ACCUMULATE over the levels) twice
+		cur := inner.lines
+		depth := pick(r, []int{1, 1, 2})
+		for d := 0; d < depth; d++ {
+			hdr := []string{"config:", "  inner.yml: |"}
+			if d == depth-1 {
+				hdr = []string{"apiVersion: v1", "kind: ConfigMap", "data:", "  rules.yml: |"}
 			}
-			p.w(sp(ind) + l)
-			p.nl()
-		}
-		for i := range rules {
-			rules[i].L0 += off
-			rules[i].L1 += off
-			for j := range rules[i].Fields {
-				fl := &rules[i].Fields[j]
-				fl.L0 += off
-				fl.L1 += off
-				if fl.C0 > 1 || true {
+			ind := pick(r, []int{4, 4, 6, 3})
+			out := append([]string{}, hdr...)
+			for _, l := range cur {
+				if l == "" {
+					out = append(out, "")
+					continue
+				}
+				out = append(out, sp(ind)+l)
+			}
+			off := len(hdr)
+			for i := range rules {
+				rules[i].L0 += off
+				rules[i].L1 += off
+				for j := range rules[i].Fields {
+					fl := &rules[i].Fields[j]
+					fl.L0 += off
+					fl.L1 += off
 					fl.C0 += ind
 				}
 			}
+			cur = out
+		}
+		p.lines = cur
+		if depth > 1 {
+			doc.Layout = "embedded" // same oracle reading; counted separately below
+			doc.Nested2 = true
 		}
 		doc.Rules = rules
 	}
